@@ -40,7 +40,7 @@ Next == \/ \E s \in Scopes, id \in 1..MaxId :
           \/ \E c \in Concrete : Reg("Map", s, c, c, id)
           \/ \E i \in Ifaces : \E c \in Storable(i) : Reg("MapTo", s, i, c, id)
           \/ \E c \in Storable("RCH") : Reg("Set", s, "RCH", c, id)
-        \/ \E s \in Scopes, t \in {"T1", "I1", "I2", "RCH"} : Lookup(s, t)
+        \/ \E s \in Scopes, t \in {"T1", "I1", "I2", "RCH", "E0"} : Lookup(s, t)
 Spec == Init /\ [][Next]_vars
 
 (* layer I: Value() *)
